@@ -97,6 +97,21 @@ impl Stream {
         ensures final(fx)@ == old(fx)@.push(Effect::NotifySynack { id: self.id, ok: result is Ok })
     { unimplemented!() }
     pub fn id(&self) -> (r: u32) ensures r == self.id { self.id }
+    pub fn reader(&self) -> (r: ReaderCell) { ReaderCell { _p: () } }
+}
+// Lock discipline towards stream consumers: a stream's consumer holds the reader lock WHILE it is parked waiting for data
+// that only the session's receive path can deliver (or for the close that only the session performs).  Waiting for that
+// lock from a Session method is a cyclic wait; no Session method may do it.  `may_wait_for_a_stream_consumer()` is never
+// established, so any such acquisition is a failed obligation.
+pub uninterp spec fn may_wait_for_a_stream_consumer() -> bool;
+pub struct ReaderCell { pub _p: () }
+pub struct ReaderGuard { pub _p: () }
+impl ReaderCell {
+    #[verifier::external_body]
+    pub fn lock(&self) -> (r: ReaderGuard) requires may_wait_for_a_stream_consumer() { unimplemented!() }
+}
+impl ReaderGuard {
+    #[verifier::external_body] pub fn buffer_len(&self) -> (r: usize) { unimplemented!() }
 }
 // the session only constructs readers and hands them to Stream::new
 #[verifier::external_body]
